@@ -10,5 +10,5 @@ fi
 cp "$demo" $d/src/verif_demo.rs
 printf '\n#[cfg(test)]\nmod verif_demo;\n' >> $d/src/lib.rs
 # reuse the dependency build of /repo by pointing at a private copy-on-write target dir
-(cd $d && CARGO_TARGET_DIR=/tmp/rt_target CARGO_NET_OFFLINE=true cargo test --offline --lib verif_demo 2>&1 | grep -E "^test |test result|panicked|assert|refused|overflow|weights|pool|exchanged" | head -20)
+(cd $d && CARGO_TARGET_DIR=/tmp/rt_target CARGO_NET_OFFLINE=true cargo test --offline --lib verif_demo 2>&1 | grep -E "^test |test result|panicked|assert|refused|overflow|weights|pool|exchanged" | head -40)
 if [ "$rev" = WORKTREE ]; then rm -rf $d; else git -C /repo worktree remove --force $d; fi
